@@ -186,7 +186,7 @@ fn exec_c17(sc: &C17Scenario) -> Outcome {
     for i in 0..sc.n_targets {
         let path = format!("t{:04}{}", i, pad);
         if i == 0 {
-            cmd_files.push(CmdFile { target: path.clone(), command: "build".into(), rel: WorldSpec::default_cmd_rel(&path, "build"), exec: true });
+            cmd_files.push(CmdFile { target: path.clone(), command: "build".into(), rel: WorldSpec::default_cmd_rel(&path, "build"), exec: true, broken: false });
         }
         targets.push(TargetSpec { path, ..Default::default() });
     }
